@@ -51,7 +51,8 @@ CLAIMS = {
               "counterexample_F2, counterexample_F5). " + _K + "find family incl. junction zones (last table transition = a rule instant).",
               "Lean 4 proof (partial) + spec-oracle differential + known findings"),
     "C06": _c("Proved (same partial scope as C05, rule zones included): a reported gap is a real one with the transition instant on both clocks, every gap "
-              "containing the local time is reported, exactly once, all results ascending; unique/earliest/latest characterised. " + _K +
+              "containing the local time is reported, exactly once, all results ascending; unique/earliest/latest characterised; and as one set equality, reported gaps = Spec.gapSet, the "
+              "executable spec the oracle runs (reported_gaps_are_the_spec_set). " + _K +
               "find family; Spec oracle gapSet for rule zones.",
               "Lean 4 proof (partial) + spec-oracle differential + known finding"),
     "C07": _c("PARTIAL. Proved on the model: every modelled function is total; 13 obligations that the unchecked arithmetic / casts / indexes / "
